@@ -187,6 +187,7 @@ def run(ctx):
     t, cf = tlcmod.gen_mc(ctx.work, "Davidson", "MC_Dav", base, invariants=["Bounded", "AppliedOncePerVector", "ReturnsBest", "Terminates"])
     r = ctx.model_check(t, cf, workers=8, coverage=True, label="Davidson loop", timeout=600)
     ctx.check_coverage(r, ["Iterate", "Return"])
+    ctx.check_proof("Davidson_proofs")         # Bounded, ReturnsBest, Terminates for every size / budget
     c2 = dict(base)
     c2["KeepBest"] = False
     t, cf = tlcmod.gen_mc(ctx.work, "Davidson", "MC_Dav_dev", c2, invariants=["ReturnsBest"])
